@@ -235,6 +235,12 @@ def _scenario(rng, name):
     d2, pub2 = sigs.issuer(rng, c1)
     jl = sigs.JavaLcgNonces(rng.bits(48))
     add(c1, d2, pub2, [jl.next(256) % n1 or 1 for _ in range(6)], 'biased-java')
+    # honest signatures on curves the LCG checks have no models for, placed
+    # in the same batch (per-curve state must not leak to the next curve)
+    for c in rng.sample([x for x in gen.NAMED if x != c1], 3):
+      dd, pp = sigs.issuer(rng, c)
+      add(c, dd, pp, sigs.nonces_uniform(rng, gen.model_curve(c).n,
+                                         rng.randint(2, 6)), 'healthy')
   elif name == 'mixedcurves':
     for c in rng.sample(gen.NAMED, 3):
       nn = gen.model_curve(c).n
